@@ -47,6 +47,13 @@ def cbin(op, a, b):
     """Canonical text of a binary arithmetic expression over canonical operand texts."""
     if op in ("+", "*") and b < a:
         a, b = b, a
+    if op == "+":
+        # (X + j) + k  ->  X + (j + k): index arithmetic written in steps (idx + 1 + 1) or at once (idx + 2)
+        import re
+        for x, y in ((a, b), (b, a)):
+            m = re.match(r"^\((.*) \+ (\d+)\)$", x)
+            if m and y.isdigit() and m.group(1).count("(") == m.group(1).count(")"):
+                return "(" + m.group(1) + " + " + str(int(m.group(2)) + int(y)) + ")"
     return "(" + a + " " + op + " " + b + ")"
 
 
@@ -96,8 +103,8 @@ def canon(e, sc, depth=0):
     if k == "bin":
         a, b = canon(e["l"], sc, depth + 1), canon(e["r"], sc, depth + 1)
         op = e["op"]
-        if op in ("+", "*") and b < a:
-            a, b = b, a
+        if op in ("+", "*") and (e.get("t") or {}).get("c") != "ptr" and not any(((x_.get("t") or {}).get("c") == "ptr") for x_ in (e["l"], e["r"]) if isinstance(x_, dict)):
+            return cbin(op, a, b)
         return "(" + a + " " + op + " " + b + ")"
     if k == "subscript":
         return canon(e["base"], sc, depth + 1) + "[" + canon(e["idx"], sc, depth + 1) + "]"
